@@ -192,6 +192,7 @@ class Interp(object):
         from . import api
         self.api = api
         self.record_reads = True
+        self.branch_oracle = None  # callable(fr, If-node) -> True/False/None: path enumeration for unknown tests
         self.tag_returns = set()   # qualnames whose tuple results are tagged 'ret:<name>#i'
         self.overrides = {}        # qualname -> closure(I, fr, bound, node) -> AV  (summary stubs)
 
@@ -234,7 +235,7 @@ class Interp(object):
 
     def call_function(self, fi, bound, state, caller_fr, node, self_obj=None, is_entry=False):
         if fi.qualname in self.overrides and not is_entry:
-            self.emit("call", caller_fr, node, callee=fi.qualname, overridden=True)
+            self.emit("call", caller_fr, node, callee=fi.qualname, overridden=True, bound=dict(bound))
             return self.overrides[fi.qualname](self, caller_fr, bound, node), state, None
         if fi in self.stack or len(self.stack) > self.MAX_DEPTH:
             return self.unmodelled(caller_fr, node, "recursion or depth limit at %s" % fi.qualname), state, None
@@ -249,7 +250,7 @@ class Interp(object):
         fr.self_obj = self_obj
         self.stack.append(fi)
         if caller_fr is not None:
-            self.emit("call", caller_fr, node, callee=fi.qualname)
+            self.emit("call", caller_fr, node, callee=fi.qualname, bound=dict(bound))
         try:
             flow = self.exec_block(fi.node.body, fr)
         finally:
@@ -406,6 +407,10 @@ class Interp(object):
     def st_If(self, st, fr):
         test = self.ev(st.test, fr)
         tv = truthiness(test)
+        if tv is None and self.branch_oracle is not None:
+            tv = self.branch_oracle(fr, st)
+            if tv is not None:
+                self.emit("assumed-branch", fr, st, taken=tv)
         self.emit("branch", fr, st, test=test, folded=tv)
         if tv is True:
             return self.exec_block(st.body, fr)
